@@ -10,7 +10,7 @@ Definition n2 : slot := SNoise "_modelEditable" "T".
 Definition n3 : slot := SNoise "lastModifiedTime" "1585318039382".
 
 Definition p_x : sparam :=
-  {| sp_id := "PARAM00000000001"; sp_name := "_x"; sp_basic := Some "int"; sp_type := []; sp_dir := Some true; sp_mod := ""; sp_default := "0";
+  {| sp_id := "PARAM00000000001"; sp_name := "_x"; sp_basic := Some "int"; sp_type := []; sp_dir := Some true; sp_mod := ""; sp_default := "nullptr, nullptr";
      sp_mult := ""; sp_layout := [STag TDefault; n1; STag TTypeString; STag TDir; n2] |}.
 Definition p_y : sparam :=
   {| sp_id := "PARAM00000000002"; sp_name := "_y"; sp_basic := None; sp_type := ["PKGA000000000001"; "PKGB000000000001"; "CLASSBAR00000001"];
@@ -47,10 +47,35 @@ Definition i_r : sinh :=
   {| si_id := "INH0000000000001"; si_parent := None; si_real := true; si_from := ["PKGA000000000001"; "CLASSFOO00000001"];
      si_to := ["PKGA000000000001"; "PKGB000000000001"; "CLASSBAR00000001"]; si_layout := [STag TTo; n2; STag TFrom] |}.
 
+(* associations: ends in either order, with and without multiplicity / aggregation kind (the defaults depend on the order) *)
+Definition e_1f : send :=
+  {| se_id := "END0000000000001"; se_name := Some ""; se_class := ["PKGA000000000001"; "CLASSFOO00000001"]; se_mult := ""; se_agg := Some "67";
+     se_vis := Some "68"; se_getter := true; se_setter := false; se_const := true;
+     se_layout := [STag TVis; n1; STag TAgg; STag TType; STag TReadOnly; STag TGetter; STag TDir] |}.
+Definition e_1t : send :=
+  {| se_id := "END0000000000002"; se_name := None; se_class := ["PKGA000000000001"; "PKGB000000000001"; "CLASSBAR00000001"]; se_mult := "";
+     se_agg := None; se_vis := Some "65"; se_getter := false; se_setter := false; se_const := false;
+     se_layout := [STag TDir; STag TVis; STag TType; n2] |}.
+Definition x_1 : sassoc :=
+  {| sx_id := "ASSOC00000000001"; sx_name := Some "m_bars"; sx_parent := None; sx_doc := "Owns, shares."; sx_from := e_1f; sx_to := e_1t;
+     sx_layout := [n3; STag TFrom; STag TDoc; STag TTo] |}.
+Definition e_2f : send :=
+  {| se_id := "END0000000000003"; se_name := Some ""; se_class := ["CLASSCOL00000001"]; se_mult := "1..*"; se_agg := Some "66";
+     se_vis := Some "71"; se_getter := false; se_setter := true; se_const := false;
+     se_layout := [STag TMult; STag TSetter; STag TVis; STag TAgg; STag TType; STag TDir] |}.
+Definition e_2t : send :=
+  {| se_id := "END0000000000004"; se_name := Some ""; se_class := ["PKGA000000000001"; "CLASSFOO00000001"]; se_mult := "";
+     se_agg := None; se_vis := None; se_getter := false; se_setter := false; se_const := false;
+     se_layout := [STag TType; STag TDir] |}.
+Definition x_2 : sassoc :=
+  {| sx_id := "ASSOC00000000002"; sx_name := None; sx_parent := None; sx_doc := ""; sx_from := e_2f; sx_to := e_2t;
+     sx_layout := [STag TTo; n1; STag TFrom] |}.
+
 Definition ex_S : sdiagram :=
   {| sd_id := "DIAGRAM000000001"; sd_name := "Example";
      sd_shapes := [("SH01", EInh i_r); ("SH02", EClass c_bar); ("SH03", EPackage k_b); ("SH04", EOther "USAGE00000000001" None "Usage" None [n1]);
-                   ("SH05", EClass c_ifoo); ("SH06", EPackage k_a); ("SH07", EClass c_col)];
+                   ("SH05", EClass c_ifoo); ("SH06", EPackage k_a); ("SH07", EClass c_col);
+                   ("SH08", EAssoc x_1); ("SH09", EAssoc x_2)];
      sd_refd := [{| sr_id := "STIFACE000000001"; sr_name := "Interface"; sr_type := "Stereotype"; sr_parent := None; sr_noise := [n1] |};
                  {| sr_id := "STENUM0000000001"; sr_name := "enumeration"; sr_type := "Stereotype"; sr_parent := None; sr_noise := [] |};
                  {| sr_id := "STPACKED00000001"; sr_name := "PackedStruct"; sr_type := "Stereotype"; sr_parent := None; sr_noise := [] |};
